@@ -563,6 +563,8 @@ pub struct HandlerProgram {
     pub force_close: bool,
     /// `ResponseBuilder::no_chunking(len)`: Content-Length set by the handler, body written raw
     pub no_chunking: Option<u64>,
+    /// the handler additionally waits until this virtual time before doing anything
+    pub pend_until_ms: Option<u64>,
 }
 
 impl HandlerProgram {
@@ -576,7 +578,12 @@ impl HandlerProgram {
             fail: false,
             force_close: false,
             no_chunking: None,
+            pend_until_ms: None,
         }
+    }
+    pub fn until(mut self, ms: u64) -> Self {
+        self.pend_until_ms = Some(ms);
+        self
     }
     pub fn no_chunking(mut self, len: u64) -> Self {
         self.no_chunking = Some(len);
